@@ -1,5 +1,8 @@
 import Aurora.Lemmas.TrafficPersist
 import Aurora.Props.C31
+import Aurora.Lemmas.DepthAtomic
+import Aurora.Lemmas.AtomicRegion
+import Aurora.Generated.TrafficRefreshRegions
 /-!
 # C33 — Traffic totals survive restarts
 
@@ -66,6 +69,112 @@ example : ∃ s, exec stepNew (init 0 0) [.call 0 5, .call 1 3, .lock 0, .add 0,
     .lock 1, .add 1, .persist 1, .unlock 1] = some s ∧ s.mem = 8 ∧ s.store = 8 ∧ s.lock = none :=
   ⟨_, rfl, rfl, rfl, rfl⟩
 example : exec stepNew (init 0 0) [.call 0 5, .call 1 3, .lock 0, .add 0, .lock 1] = none := rfl
+
+/-! ### the refresh (`trafficPeerChequeUpdate`) against concurrent updates
+
+`trafficInit` (start-up, every 24 h, `TrafficInit` API) resets each peer's totals to
+max(chain value, last cheque, persisted total) while `PutRetrieveTraffic` / `PutTransferTraffic` may run.
+That is safe only if the persisted totals are read inside the peer-lock region that assigns the
+fields — otherwise an update that lands between the read and the lock is overwritten in memory and the
+next update persists the smaller total.  The extractor regenerates the lock / store-read /
+store-write / field events of the three functions (`Aurora/Generated/TrafficRefreshRegions.lean`). -/
+
+section Refresh
+open Aurora.Generated.TrafficRefreshRegions
+open Aurora.LockSetProg (Body)
+
+/-- a function's events are all inside ONE critical section of the peer lock -/
+def regionOk (f : Bool × Body) : Bool :=
+  f.1 && Aurora.LockSetProg.bodyOk lockOf f.2 && Aurora.AtomicRegion.oneRegion f.2
+
+/-- Clause 1/2, **static obligation** (by evaluation of the regenerated lists): in
+    `trafficPeerChequeUpdate` the reads of both persisted totals and the assignments of
+    `retrieveTraffic` / `transferTraffic` were found and all lie in one peer-lock region; in
+    `PutRetrieveTraffic` / `PutTransferTraffic` the field update and the store `Put` were found and lie in
+    one peer-lock region.  The seeded change C33-2 (store reads hoisted in front of `traffic.Lock()`)
+    generates `[.access 0 false, .access 1 false, .lock 0, …]` and this fails. -/
+theorem C33_refresh_reads_inside_lock_region :
+    regionOk trafficPeerChequeUpdate = true ∧
+    Aurora.AtomicRegion.accesses trafficPeerChequeUpdate.2 0 false = true ∧
+    Aurora.AtomicRegion.accesses trafficPeerChequeUpdate.2 1 false = true ∧
+    Aurora.AtomicRegion.accesses trafficPeerChequeUpdate.2 2 true = true ∧
+    Aurora.AtomicRegion.accesses trafficPeerChequeUpdate.2 3 true = true ∧
+    regionOk PutRetrieveTraffic = true ∧
+    Aurora.AtomicRegion.accesses PutRetrieveTraffic.2 2 true = true ∧
+    Aurora.AtomicRegion.accesses PutRetrieveTraffic.2 0 true = true ∧
+    regionOk PutTransferTraffic = true ∧
+    Aurora.AtomicRegion.accesses PutTransferTraffic.2 3 true = true ∧
+    Aurora.AtomicRegion.accesses PutTransferTraffic.2 1 true = true := by
+  decide
+
+/-- the shape of an update site in the transition system of `Lemmas/DepthAtomic.lean`: change and
+    recomputation inside one critical section (`atomicIn`) iff the extracted events say so, otherwise
+    the pessimistic `split` (compute with no lock held, lock only to store) -/
+def shapeOf (f : Bool × Body) : Aurora.DepthAtomic.Shape := if regionOk f then .atomicIn else .split
+
+/-- Clause 1/2 for refreshes racing with updates (one total of one peer).  Threads: `isRefresh i` —
+    a refresh of the peer (no change to the persisted total; memory := max(base, persisted)); otherwise
+    an update by `amt i` (persisted total += `amt i`; memory := the new total), each with the shape
+    its extracted function has.  By `C33_refresh_reads_inside_lock_region` no thread is `split`, so by
+    the quiescence theorem of `Lemmas/DepthAtomic.lean`: in every interleaving, once all threads have
+    finished, the total in memory is max(base, persisted total), the persisted total is the start
+    value plus the amounts of ALL updates that took part (in the order `s.log`), and it never went
+    below the start value — nothing acknowledged is forgotten by the running node or by a restart
+    (`restored = max base store`).  `upd` is either extracted update function.
+    (Abstraction: an update's two assignments — field, then store — are one `mutateLocked` /
+    `storeRelease` pair of the lemma file, in the other order; both happen inside the one critical
+    section that the static obligation establishes.  Mutex semantics assumed as in the lemma file.) -/
+theorem C33_refresh_concurrent_totals_current (base : Nat) (isRefresh : Nat → Bool) (amt : Nat → Nat)
+    (upd : Bool × Body) (hupd : upd = PutRetrieveTraffic ∨ upd = PutTransferTraffic)
+    (sh0 : Nat) (pc0 : Nat → Aurora.DepthAtomic.Pc) (h0 : ∀ i, pc0 i = .start ∨ pc0 i = .done)
+    (s : Aurora.DepthAtomic.St Nat)
+    (hr : Aurora.DepthAtomic.Reach (max base) (fun i x => if isRefresh i then x else x + amt i)
+            (fun i => if isRefresh i then shapeOf trafficPeerChequeUpdate else shapeOf upd) sh0 pc0 s)
+    (hq : ∀ i, s.pc i = .done) :
+    s.depth = max base s.sh ∧
+    s.sh = s.log.foldl (fun x i => if isRefresh i then x else x + amt i) sh0 ∧
+    (∀ i, i ∈ s.log ↔ pc0 i = .start) ∧ sh0 ≤ s.sh := by
+  have hs : ∀ i, (if isRefresh i then shapeOf trafficPeerChequeUpdate else shapeOf upd) ≠ .split := by
+    intro i
+    have hu : shapeOf upd = .atomicIn := by
+      rcases hupd with e | e <;> subst e
+      · simp [shapeOf, C33_refresh_reads_inside_lock_region.2.2.2.2.2.1]
+      · simp [shapeOf, C33_refresh_reads_inside_lock_region.2.2.2.2.2.2.2.2.1]
+    have hf : shapeOf trafficPeerChequeUpdate = .atomicIn := by
+      simp [shapeOf, C33_refresh_reads_inside_lock_region.1]
+    cases isRefresh i <;> simp [hu, hf]
+  have hsh := Aurora.DepthAtomic.sh_eq_fold_log _ _ _ hr
+  refine ⟨Aurora.DepthAtomic.quiescent_current _ _ _ hs h0 hr hq, hsh,
+    Aurora.DepthAtomic.log_exact _ _ _ h0 hr hq, ?_⟩
+  rw [hsh]
+  have : ∀ (l : List Nat) (x : Nat), x ≤ l.foldl (fun x i => if isRefresh i then x else x + amt i) x := by
+    intro l
+    induction l with
+    | nil => intro x; exact Nat.le_refl x
+    | cons i l ih =>
+      intro x
+      simp only [List.foldl_cons]
+      cases isRefresh i
+      · exact Nat.le_trans (Nat.le_add_right x (amt i)) (ih _)
+      · exact ih x
+  exact this _ _
+
+/-- the hypothesis "no split site" is needed: `Lemmas/DepthAtomic.split_breaks` is a concrete
+    interleaving of one split and one atomic event that ends, at quiescence, with a stale value in
+    memory — the shape of the seeded change C33-2 (refresh computes from a total read before the lock) -/
+example : ∃ s : Aurora.DepthAtomic.St Nat,
+    Aurora.DepthAtomic.Reach id (fun i _ => i + 1) (fun i => if i = 0 then .split else .atomic) 0
+      (fun i => if i < 2 then .start else .done) s ∧ (∀ i, s.pc i = .done) ∧ s.depth ≠ id s.sh :=
+  Aurora.DepthAtomic.split_breaks
+
+/-- the shape of the seeded change C33-2 is rejected by the region check -/
+example : regionOk (true, [.access 0 false, .access 1 false, .lock 0, .access 2 true, .access 3 true, .unlock 0]) = false := by
+  decide
+/-- … and so is reading under the lock, releasing it, and assigning in a second critical section -/
+example : Aurora.AtomicRegion.oneRegion [.lock 0, .access 0 false, .unlock 0, .lock 0, .access 2 true, .unlock 0] = false := by
+  decide
+
+end Refresh
 
 end Aurora.TrafficPersist
 
